@@ -8,6 +8,27 @@ E2E_RUN = {"harness": "he2e", "driver": "pipedrv", "fields": None, "corpus": "e2
            #        18 shards x 12 cases x ~25 histories x ~4.5 requests ~ 20 000 requests
            "thorough": {"n": 12, "shards": 18, "timeout": 2400}}
 
+from . import cs
+
+# Critical-section predicates (DESIGN 2.4c): one ClientFifo model step = one critical section of ClientConn.mux.
+_F = "nbhttp/client_conn.go"
+_CS = [
+    cs.pred("cs_client_do", _F, "nbhttp.ClientConn.Do", closure=0, no_go=True,
+            guarded={"recv.mux": ["recv.handlers", "recv.closed", "recv.conn"]},
+            held_calls={"recv.mux": ["recv.closeWithErrorWithoutLock", "handler"]}),
+    cs.pred("cs_client_onResponse", _F, "nbhttp.ClientConn.onResponse", no_go=True,
+            guarded={"recv.mux": ["recv.handlers", "recv.closed", "recv.conn"]},
+            held_calls={"recv.mux": ["head.h", "recv.closeWithErrorWithoutLock"]}),
+    cs.pred("cs_client_closeByConn", _F, "nbhttp.ClientConn.closeByConn", no_go=True,
+            guarded={"recv.mux": ["recv.closed", "recv.conn"]},
+            held_calls={"recv.mux": ["recv.closeWithErrorWithoutLock"]}),
+    cs.pred("cs_client_CloseWithError", _F, "nbhttp.ClientConn.CloseWithError", no_go=True,
+            guarded={"recv.mux": ["recv.closed"]},
+            held_calls={"recv.mux": ["recv.closeWithErrorWithoutLock"]}),
+    cs.pred("cs_client_Reset", _F, "nbhttp.ClientConn.Reset", no_go=True,
+            guarded={"recv.mux": ["recv.handlers", "recv.closed", "recv.conn"]}),
+]
+
 PROPS = {
     "C10": {
         "manifest": {
@@ -24,7 +45,7 @@ PROPS = {
             "technique": "Lean 4 proof (invariants over all interleavings, simulation for non-interference) + differential correspondence on real sockets"},
         "lean": ["NbioVerif.Properties.C10"], "drivers": ["pipedrv"], "harness": ["he2e"],
         "runs": [E2E_RUN],
-        "oracles": ["c10-"],
+        "oracles": ["c10-"], "cs": _CS,
         "rule": "case = one matrix cell + 1..64 concurrent connection histories (raw pipelining client, net/http, nbhttp ClientConn pipelined, "
                 "nbhttp Client pool); distinct by hash of (cell, client kinds, per request: version, Connection values, framing, size class, "
                 "writes, sync); non-trivial iff a history has >= 3 requests, a response >= 60 KB or a possibly closing request",
